@@ -182,9 +182,9 @@ CHECKS["C16"] = {
              "scale iff norm_var with zero-variance replacement first; any attribute derived from the statistics is invalidated by "
              "every writer of the statistics; dimension checks precede updates; float64 result; in-place writes only with in_place. "
              "Does NOT decide numerical values or the moments of locally standardised tensors."),
-    "design_ref": "DESIGN.md §3 C16",
+    "design_ref": "DESIGN.md §3 C16, §10.7",
     "note": NOTE_COMMON,
-    "technique": "static analysis: who-may-write/additive-update rule, sibling closed forms, dtype lattice, derived-state invalidation (must-write), effect analysis with the in_place flag",
+    "technique": "static analysis: forward substitution + scenario evaluation of the statistics matrix after accumulate and of the value / dtype / raise conditions of apply against the documented closed forms, additive-update rule, blocked-loop coverage, dtype lattice, derived-state invalidation (must-write), effect analysis with the in_place flag",
 }
 CHECKS["C17"] = {
     "level": "other",
